@@ -165,7 +165,7 @@ fn deromaniser_case(kind: usize, ws: &[CW], a: &mut Acc) {
 pub fn run() -> i32 {
     let mut r = Report::new("C15");
     let thorough = r.thorough();
-    r.rule = "romaniser sets of one line (thorough: every ordered pair of lines, and the comma-list form of each pair) over inputs {a, a:[+long], a:[+stress], a:[+secstress], a:[+stress, -secstress], V, V:[+stress], V:[-sec.stress], [+nasal], ta, $} x replacements {Q, QQ, *, a unicode escape, a named escape, +q, +@{macron}}; x 5 rule lists x every word of W(I5,3) with and without stress (long segments included): the printed word must equal the default rendering of the structural result rewritten by a reference romaniser, both through run() and through the renderer alone; deromanisers {Q > a, QQ > a:[+long], Z > ta, X > a:[+stress], S > a:[+secstress], Y > ta:[+long]n, W > a:[+long]t} on W(I5,4): run(R, encode(w), into=D) == run(R, w). Non-trivial = the alias rewrote the rendering.".into();
+    r.rule = "romaniser sets of one line (thorough: every ordered pair of lines, and the comma-list form of each pair) over inputs {a, a:[+long], a:[+stress], a:[+secstress], a:[+stress, -secstress], V, V:[+stress], V:[-sec.stress], [+nasal], ta, $} x replacements {Q, QQ, *, a unicode escape, a named escape, +q, +@{macron}}; x 5 rule lists x every word of W(I5,3) with and without stress (long segments included): the printed word must equal the default rendering of the structural result rewritten by a reference romaniser, both through run() and through the renderer alone; every group letter with a parameter (each own feature repeated / flipped, four foreign features) as romaniser input on the 365 base phones against the bit model; deromanisers {Q > a, QQ > a:[+long], Z > ta, X > a:[+stress], S > a:[+secstress], Y > ta:[+long]n, W > a:[+long]t} on W(I5,4): run(R, encode(w), into=D) == run(R, w). Non-trivial = the alias rewrote the rendering.".into();
     r.assumptions.push("`+` only on segments that are base phones (inventory p t a i n); no tone-matching aliases: the manual does not say what happens to the tones of unmatched syllables".into());
     let ws = words(3, true);
     let pool = rom_pool();
@@ -192,20 +192,57 @@ pub fn run() -> i32 {
     par_fold(jobs.len(), 1, Acc::default, |i, a| romaniser_case(&jobs[i].0, &jobs[i].1, &ws, a), |a| tr.merge(a));
     r.boxes.push(json!({"box": "romanisers", "alias_sets": jobs.len(), "words": ws.len(), "rule_lists": RULES.len(), "comparisons": tr.evals, "rewritten": tr.rewritten, "unchanged": tr.same, "skipped": tr.skipped}));
     r.guard(tr.rewritten > 10_000, "romanisers rewrote more than 10k renderings");
+    // ---- group letters with parameters as romaniser inputs, on the one-segment words of the segment universe: the parameter
+    // is added to the group's matrix and overrides the group's own value for the same feature
+    let uni = super::c04::segment_universe(false);
+    let mut glines: Vec<(String, Vec<(usize, bool)>)> = vec![];
+    let fidx = |name: &str| model::FEATS.iter().position(|f| f.0 == name).unwrap_or_else(|| panic!("feature {name} not in the model"));
+    for (g, m) in super::c12::GROUPS {
+        let own: Vec<(usize, bool)> = m[1..m.len() - 1].split(", ").map(|t| (fidx(&t[1..]), t.starts_with('+'))).collect();
+        let mut mods: Vec<(usize, bool)> = vec![];
+        for (f, v) in &own { mods.push((*f, *v)); mods.push((*f, !*v)); }
+        for extra in ["nasal", "voice", "cont", "lat"] { let f = fidx(extra); if !own.iter().any(|x| x.0 == f) { mods.push((f, true)); mods.push((f, false)); } }
+        for (f, v) in mods {
+            let mut want: Vec<(usize, bool)> = own.iter().filter(|x| x.0 != f).cloned().collect(); want.push((f, v));
+            glines.push((format!("{}:[{}{}] > Q", g, if v { "+" } else { "-" }, model::FEATS[f].0), want));
+        }
+    }
+    let mut tg = Acc::default();
+    par_fold(glines.len(), 1, Acc::default, |i, a| {
+        let (line, want) = &glines[i];
+        for (gr, b) in &uni {
+            a.evals += 1;
+            // the default rendering of the bundle (some graphemes share a bundle: `ɢǀ` prints as `qǀ`)
+            let plain = av::render_word(&word_of(&vec![CSyl { segs: vec![*b], stress: 0, tone: 0 }]), None);
+            if plain.contains('\u{FFFD}') { a.skipped += 1; continue; }
+            let expect = if want.iter().all(|(f, v)| model::feat(*b, *f) == Some(*v)) { "Q".to_string() } else { plain };
+            match guarded(500_000, || asca::run(&[], &[gr.clone()], &[], &[line.clone()]).map_err(|e| format!("{:?}", e))) {
+                Out::Ok(Ok(v)) if v.len() == 1 && v[0] == expect => { if expect == "Q" { a.rewritten += 1; } else { a.same += 1; } }
+                Out::Ok(x) => a.viols.push(Viol { key: format!("group-romaniser|{}|{}", line, gr), desc: format!("romaniser `{}` on `{}`: expected `{}`, run printed {:?}", line, gr, expect, x), case: json!({"kind": "grom", "line": line, "word": gr, "expect": expect}) }),
+                _ => a.skipped += 1,
+            }
+        }
+    }, |a| tg.merge(a));
+    r.boxes.push(json!({"box": "group letters with a parameter as romaniser input x segment universe", "alias_lines": glines.len(), "segments": uni.len(), "comparisons": tg.evals, "rewritten": tg.rewritten, "unchanged": tg.same}));
+    r.guard(tg.rewritten > 1000, "group romanisers rewrote more than 1000 segments");
     let wd = words(4, true);
     let mut td = Acc::default();
     par_fold(DEROM.len(), 1, Acc::default, |i, a| deromaniser_case(i, &wd, a), |a| td.merge(a));
     r.boxes.push(json!({"box": "deromanisers", "alias_sets": DEROM.len(), "words": wd.len(), "comparisons": td.evals, "both_ok": td.rewritten, "both_err": td.same, "skipped": td.skipped}));
     r.guard(td.rewritten > 1_000, "deromanisers: more than 1000 encoded words compared");
-    r.evaluations = tr.evals + td.evals; r.transitions = r.evaluations * 2; r.validated = tr.rewritten + tr.same + td.rewritten + td.same; r.nontrivial = tr.rewritten + td.rewritten;
+    r.evaluations = tr.evals + td.evals + tg.evals; r.transitions = r.evaluations * 2; r.validated = tr.rewritten + tr.same + td.rewritten + td.same + tg.rewritten + tg.same; r.nontrivial = tr.rewritten + td.rewritten + tg.rewritten;
     let mut outs = tr.outs.clone(); outs.extend(td.outs.iter()); r.states = outs;
     r.sample(json!({"romaniser": jobs[3].0, "word": show_cw(&ws[100]), "model": romanise(&ws[100], &jobs[3].1)}));
     r.sample(json!({"deromaniser": DEROM[3], "word": show_cw(&wd[wd.len() - 3]), "encoded": encode(3, &wd[wd.len() - 3])}));
-    for v in tr.viols.into_iter().chain(td.viols) { r.viol(v); }
+    for v in tr.viols.into_iter().chain(td.viols).chain(tg.viols) { r.viol(v); }
     r.finish()
 }
 
 pub fn replay(case: &Value) -> Result<String, String> {
+    if case["kind"].as_str() == Some("grom") {
+            let (line, word, expect) = (case["line"].as_str().unwrap_or("").to_string(), case["word"].as_str().unwrap_or("").to_string(), case["expect"].as_str().unwrap_or(""));
+            return match guarded(500_000, || asca::run(&[], &[word.clone()], &[], &[line.clone()]).map_err(|e| format!("{:?}", e))) { Out::Ok(Ok(v)) if v.len() == 1 && v[0] == expect => Ok(format!("`{}` prints `{}` as `{}`", line, word, expect)), Out::Ok(x) => Err(format!("romaniser `{}` on `{}`: expected `{}`, run printed {:?}", line, word, expect, x)), o => Err(o.crash_desc().unwrap()) };
+    }
     let w = cw_from_json(&case["word"]).ok_or("word")?;
     let mut a = Acc::default();
     match case["kind"].as_str() {
